@@ -368,7 +368,7 @@ func runC11(r *ev.Run, rep *ev.ReplayDoc) ev.Summary {
 	env.Dir = d
 	defer env.Cleanup()
 	sum := ev.Summary{
-		Rule: "seeded message specs (all file sources incl. os files, read-seekers on os.File, fs.FS, templates; all file encodings; S/MIME on a share) x operation sequences of length 2-5 over {WriteTo, Write, NewReader+ReadAll, 7-byte Reads, UpdateReader, a Reader read in part and then refreshed by UpdateReader, WriteToFile (to a new path and over an existing longer file), WriteToTempFile, WriteToSkipMiddleware, Send via reference server, failing-sink render, failing-producer render}; all pairs of operations enumerated, longer sequences sampled. Every successful output must equal the first successful output byte for byte. non-trivial = message has a file or >=2 parts; distinct by (shape, ops)",
+		Rule: "seeded message specs (all file sources incl. os files, read-seekers on os.File, fs.FS, templates; all file encodings, incl. quoted-printable assigned to File.Enc directly; S/MIME on a share) x operation sequences of length 2-5 over {WriteTo, Write, NewReader+ReadAll, 7-byte Reads, UpdateReader, a Reader read in part and then refreshed by UpdateReader, WriteToFile (to a new path and over an existing longer file), WriteToTempFile, WriteToSkipMiddleware, Send via reference server, failing-sink render, failing-producer render}; all pairs of operations enumerated, longer sequences sampled. Every successful output must equal the first successful output byte for byte. non-trivial = message has a file or >=2 parts; distinct by (shape, ops)",
 		Assumptions: []string{
 			"for Send the payload is what the reference server committed (dot-unstuffed); contents of 8bit/7bit entities are canonical CRLF so that SMTP's bare-LF canonicalisation does not blur the comparison",
 			"S/MIME: the outer boundary and the signature legitimately change per render; the top-level header (boundary masked) and the signed entity are compared",
@@ -422,6 +422,14 @@ func runC11(r *ev.Run, rep *ev.ReplayDoc) ev.Summary {
 		}
 		s := genSpec(rng, fmt.Sprintf("c11-%d", i), "", np, ne, na)
 		canon8bit(&s)
+		if rng.Intn(6) == 0 {
+			// a file whose exported Enc field the caller sets to quoted-printable after attaching it
+			if len(s.Attach) > 0 {
+				s.Attach[0].Enc = "qp-direct"
+			} else if len(s.Embeds) > 0 {
+				s.Embeds[0].Enc = "qp-direct"
+			}
+		}
 		if rng.Intn(8) == 0 {
 			s.SMIME = gen.Pick(rng, []string{"rsa", "ecdsa"})
 			s.WithInt = rng.Intn(2) == 0
